@@ -292,16 +292,18 @@ fn octal(b: u8, digits: usize) -> Vec<u8> {
 }
 
 /// all spellings of byte `b` at this position; index 0 is canonical. `next` is the following value byte (if any).
-fn byte_spellings(b: u8, balanced: bool, next: Option<u8>) -> Vec<Vec<u8>> {
+fn byte_spellings(b: u8, raw_parens: bool, next: Option<u8>) -> Vec<Vec<u8>> {
     let next_is_digit = next.map(|n| n.is_ascii_digit()).unwrap_or(false);
     let mut v: Vec<Vec<u8>> = vec![];
     match b {
         b'(' | b')' => {
-            v.push(vec![b'\\', b]);
-            if balanced {
+            if raw_parens {
+                // all parentheses of a balanced string written raw (all or nothing)
                 v.push(vec![b]);
+            } else {
+                v.push(vec![b'\\', b]);
+                v.push(octal(b, 3));
             }
-            v.push(octal(b, 3));
         }
         b'\\' => {
             v.push(vec![b'\\', b'\\']);
@@ -379,7 +381,8 @@ fn string_tok(ch: &mut Chooser, s: &[u8]) -> Tok {
         out.push(b'>');
         return Tok::delim(&out);
     }
-    let balanced = parens_balanced(s);
+    let has_parens = s.iter().any(|&b| b == b'(' || b == b')');
+    let balanced = has_parens && parens_balanced(s) && ch.pick_named("parens", &["escaped", "raw-balanced"]) == 1;
     let cont = ch.pick_named("cont", CONT_POS);
     let eol = if cont != 0 { ch.pick_named("cont-eol", CONT_EOL) } else { 0 };
     let cont_at = match cont {
@@ -400,6 +403,10 @@ fn string_tok(ch: &mut Chooser, s: &[u8]) -> Tok {
         let mut spelled = sp[k].clone();
         // raw CR followed by a value LF would merge into one EOL: avoid that spelling
         if spelled == b"\r" && s.get(i + 1) == Some(&b'\n') {
+            spelled = sp[0].clone();
+        }
+        // a raw LF right after a `\`+CR continuation (or after a raw CR) would read as part of that EOL
+        if spelled.first() == Some(&b'\n') && out.last() == Some(&b'\r') {
             spelled = sp[0].clone();
         }
         out.extend_from_slice(&spelled);
